@@ -293,6 +293,7 @@ class Interp:
         self.rel_stack = []        # enables whose real call is running
         self.nlife = Counter()
         self.ndirect = Counter()
+        self.in_process = self.clear_in_reap = False
         self.flip, self.emitted_now = None, 0
         self.top_op, self.top_start = None, 0
         self.probe_snap = {}
@@ -371,9 +372,24 @@ class Interp:
                             self.exec_op(op, nested=True)
                         elif op[0] == 'reap_now':
                             self.reap_now(op)
+                        elif op[0] == 'clear_all':
+                            self.clear_from_reaping()
                 finally:
                     self.in_life -= 1
                     self.depth -= 1
+
+    def clear_from_reaping(self):
+        """From an on_remove callback of the deletion pass: the whole world
+        is cleared ("game over: reset").  Everything that was attached gets
+        its on_remove exactly once, by whichever of the two gets to it."""
+        if (not self.enabled or getattr(self, 'clearing', False)
+                or not self.in_process or self.clear_in_reap):
+            return
+        self.clear_in_reap = True
+        self.trace.add('clear_from_reaping')
+        self.probes['world_cleared_by_on_remove_of_the_deletion_pass'] += 1
+        self.faults['clear_during_reaping'] += 1
+        self.w.clear()
 
     def reap_now(self, op):
         """From an on_remove callback of the deletion pass: finish off
@@ -1131,8 +1147,46 @@ class Interp:
                 self.cur_dt, self.life_ok = saved
         return self.do_process(op, start, dt)
 
+    def model_cleared(self):
+        self.ents = {}
+        self.dead.clear()
+        self.stale.clear()
+        self.ghosts = set()
+        self.ghost_frames = 0
+        self.where.clear()
+        self.reg_c.clear()
+        self.reg_p.clear()
+        self.procs = []
+        self.enabled = True
+        self.flags.add('cleared')
+        self.cleared_at = self.mut_ops
+
+    def judge_cleared_frame(self, start, pre, pre_procs, dt):
+        want = Counter()
+        for i, eid in pre:
+            want.update(self.exp_life(i, 'on_remove', eid))
+        for j in pre_procs:
+            want.update(self.exp_plife(j, 'on_remove'))
+        got = Counter(e for d, e in self.log[start:]
+                      if e[0] in ('life', 'plife'))
+        if got != want:
+            kind = 'callback_missing' if want - got else 'callback_extra'
+            self.fail(('C02', 'C05'), kind, f'process({dt}) whose deletion '
+                      f'pass was interrupted by clear(): missing '
+                      f'{sorted((want - got).elements())}, unexpected '
+                      f'{sorted((got - want).elements())}')
+        called = [e for d, e in self.log[start:] if e[0] == 'proc']
+        if called:
+            self.fail('C07', 'old_still_called', f'process({dt}): '
+                      f'processors removed by the clear() of the deletion '
+                      f'pass were still run: {called}')
+        self.model_cleared()
+
     def do_process(self, op, start, dt):
         self.cur_dt = dt
+        self.clear_in_reap = False
+        pre = sorted(self.where.items(), key=repr)
+        pre_procs = [j for q, j in self.procs]
         groups = []
         ghosts = getattr(self, 'ghosts', set())
         exp = []
@@ -1169,6 +1223,7 @@ class Interp:
         self.emit(groups, exp, origin='reap')
         boom = None
         self.life_ok = True
+        self.in_process = self.depth == 0
         try:
             with kernel.budget(OP_BUDGET):
                 self.w.process(dt)
@@ -1189,6 +1244,10 @@ class Interp:
                       f'{type(e).__name__}: {e}')
         finally:
             self.life_ok = False
+            self.in_process = False
+        if self.clear_in_reap:
+            self.clear_in_reap = False
+            return self.judge_cleared_frame(start, pre, pre_procs, dt)
         actual = [e for d, e in self.log[start:] if d == self.depth]
         # lifecycle group first, then processors in model order
         nlife = sum(len(g[0]) for g in groups)
@@ -2156,6 +2215,11 @@ def generate(prop, run_seed, tier='quick', tolerate=frozenset()):
                      ['reap_now', rng.choice(cfg['ids']),
                       rng.choice(['delete', 'strip'])])
                     for _ in range(rng.randint(1, 2))]
+    if crng.random() < {'C05': .06, 'C01': .04, 'C02': .04}.get(prop, 0):
+        # ... or clears the whole world
+        hs = [i for i, c in enumerate(cfg['insts'])]
+        for i in rng.sample(hs, min(len(hs), rng.randint(1, 3))):
+            scripts[f'rm:c{i}:{rng.choice([0, 0, 1])}'] = [['clear_all']]
     return {'format': 1, 'engine': 'world', 'config': cfg, 'ops': ops,
             'scripts': scripts}
 
